@@ -99,11 +99,16 @@ def hasId (h : Heap) (a : Nat) : Bool := h.any fun n => n.id == a
 def closeNode (h : Heap) (a : Nat) : Heap :=
   h.map fun n => if n.id == a then { n with isOpen := false } else n
 
-/-- one step; `none` only if the walk diverges. `new` with an id that already exists is ignored
-    (the real server rejects it before touching the tree). -/
+/-- `processHeaders` creates a stream only for an odd id above `sc.maxStreamID` (= the largest id ever
+    created, and every created stream stays in the heap); HEADERS on an open stream are trailers, any
+    other id is a connection error: in all those cases the tree is not touched. -/
+def canOpen (h : Heap) (id : Nat) : Bool := id % 2 == 1 && h.all (fun n => n.id < id)
+
+/-- one step; `none` only if the walk diverges.  `new` mirrors processHeaders:
+    `sc.streams[id] = st; if f.HasPriority() { adjustStreamPriority(sc.streams, st.id, f.Priority) }`. -/
 def step (h : Heap) : Op → Option Heap
   | .new id pr =>
-    if hasId h id || id == 0 then some h
+    if !canOpen h id then some h
     else
       let h' := h ++ [{ id := id, parent := none, weight := 0, isOpen := true }]
       match pr with
